@@ -24,11 +24,17 @@ EXTENDS Integers, Sequences, FiniteSets, TLC
 CONSTANTS MaxN,        \* number of passes besides the start-up pass
           MinN,        \* smallest graph that is partitioned (1 for model checking; larger to steer -simulate)
           Places,      \* subset of {"Cpu", "Npu", "MemN", "MemC"}
-          AllowExtra   \* TRUE: CPU passes may have a data operand that is neither IFM nor IFM2
+          AllowExtra,  \* TRUE: CPU passes may have a data operand that is neither IFM nor IFM2
+          MultiOut,    \* TRUE: a CPU pass may hold an operator with two outputs (third-party custom operator, TOPK_V2,
+                       \*       UNIQUE, SPLIT kept on the CPU ...); a consumer reads the first output, or ONLY the second one
+          SinkSees     \* "all": the sink rule asks whether the next pass reads ANY output of the CPU pass (the compiler);
+                       \* "first": it asks about the first output only (a regression; negative control: TopoOrder fails)
 
-VARIABLES phase, n, ifm, extra, plc, list, top, rest, k, pv, runs, cseq
+\* nout[i] = number of outputs of the operator of pass i; second[i] = the producers p (nout[p] = 2) among ifm[i] \cup extra[i]
+\* of which pass i reads the second output and not the first
+VARIABLES phase, n, ifm, extra, plc, nout, second, list, top, rest, k, pv, runs, cseq
 
-vars == <<phase, n, ifm, extra, plc, list, top, rest, k, pv, runs, cseq>>
+vars == <<phase, n, ifm, extra, plc, nout, second, list, top, rest, k, pv, runs, cseq>>
 
 ---------------------------------------------------------------------------
 (* ---------- pure operators shared with the trace specification ---------- *)
@@ -147,7 +153,7 @@ plF == [i \in 0..n |-> Pl(i)]
 naF == [i \in 0..n |-> Na(i)]
 
 Init == /\ phase = "build" /\ n = 0
-        /\ ifm = <<>> /\ extra = <<>> /\ plc = <<>>
+        /\ ifm = <<>> /\ extra = <<>> /\ plc = <<>> /\ nout = <<>> /\ second = <<>>
         /\ list = <<0>> /\ top = <<>> /\ rest = <<>> /\ k = 0
         /\ pv = <<>> /\ runs = <<>> /\ cseq = <<>>
 
@@ -159,6 +165,8 @@ AddNode ==
          /\ \E E \in SUBSET ((0..n) \ P) :
               /\ Cardinality(E) <= (IF AllowExtra /\ c = "Cpu" THEN 1 ELSE 0)
               /\ ifm' = Append(ifm, P) /\ extra' = Append(extra, E) /\ plc' = Append(plc, c)
+              /\ \E o \in (IF MultiOut /\ c = "Cpu" THEN {1, 2} ELSE {1}) : nout' = Append(nout, o)
+              /\ \E S \in SUBSET {p \in (P \cup E) \ {0} : nout[p] = 2} : second' = Append(second, S)
     /\ n' = n + 1
     /\ list' = Append(list, n + 1)
     /\ UNCHANGED <<phase, top, rest, k, pv, runs, cseq>>
@@ -173,18 +181,20 @@ FilterTop ==
        IN /\ top' = <<0>> \o t /\ rest' = r /\ list' = <<0>> \o t \o r
           /\ k' = Len(r)
     /\ phase' = "sink"
-    /\ UNCHANGED <<n, ifm, extra, plc, pv, runs, cseq>>
+    /\ UNCHANGED <<n, ifm, extra, plc, nout, second, pv, runs, cseq>>
 
 \* rule 2, one iteration of `for cpu_ps in reversed(pass_list)`: the iterator holds an index, the list
 \* is mutated in place; moves only go towards higher indices so positions below the cursor are stable.
 RemoveAt(s, p) == SubSeq(s, 1, p - 1) \o SubSeq(s, p + 1, Len(s))
 InsertAt(s, p, x) == SubSeq(s, 1, p - 1) \o <<x>> \o SubSeq(s, p, Len(s))
+\* does the sink rule see that pass nx reads what CPU pass c produces?
+SeenReading(nx, c) == c \in ifm[nx] /\ (SinkSees = "all" \/ c \notin second[nx])
 RECURSIVE Scan(_, _, _)
 Scan(s, c, j) ==           \* c = s[kk], j walks kk+1 .. Len(s)
     IF j > Len(s) THEN s
     ELSE LET nx == s[j] IN
          IF Pl(nx) = "Cpu" THEN InsertAt(RemoveAt(s, Pos(s, c)), j - 1, c)       \* move in front of the next CPU pass
-         ELSE IF c \in ifm[nx] \/ Pl(nx) = "Mem" THEN s                          \* blocked
+         ELSE IF SeenReading(nx, c) \/ Pl(nx) = "Mem" THEN s                         \* blocked
          ELSE IF j = Len(s) THEN Append(RemoveAt(s, Pos(s, c)), c)               \* last element: move to the end
          ELSE Scan(s, c, j + 1)
 SinkStep ==
@@ -193,24 +203,24 @@ SinkStep ==
        rest' = IF Pl(c) = "Cpu" THEN Scan(rest, c, k + 1) ELSE rest
     /\ list' = top \o rest'
     /\ k' = k - 1
-    /\ UNCHANGED <<phase, n, ifm, extra, plc, top, pv, runs, cseq>>
+    /\ UNCHANGED <<phase, n, ifm, extra, plc, nout, second, top, pv, runs, cseq>>
 SinkDone ==
     /\ phase = "sink" /\ k = 0
     /\ phase' = "absorb"
-    /\ UNCHANGED <<n, ifm, extra, plc, list, top, rest, k, pv, runs, cseq>>
+    /\ UNCHANGED <<n, ifm, extra, plc, nout, second, list, top, rest, k, pv, runs, cseq>>
 
 Absorb ==
     /\ phase = "absorb"
     /\ pv' = PlaceVec(list, plF, naF)
     /\ phase' = "split"
-    /\ UNCHANGED <<n, ifm, extra, plc, list, top, rest, k, runs, cseq>>
+    /\ UNCHANGED <<n, ifm, extra, plc, nout, second, list, top, rest, k, runs, cseq>>
 
 Split ==
     /\ phase = "split"
     /\ runs' = RunsOf(pv, list)
     /\ cseq' = CSeqOf(pv, list)
     /\ phase' = "done"
-    /\ UNCHANGED <<n, ifm, extra, plc, list, top, rest, k, pv>>
+    /\ UNCHANGED <<n, ifm, extra, plc, nout, second, list, top, rest, k, pv>>
 
 Next == AddNode \/ FilterTop \/ SinkStep \/ SinkDone \/ Absorb \/ Split
 Spec == Init /\ [][Next]_vars
@@ -218,7 +228,8 @@ Spec == Init /\ [][Next]_vars
 ---------------------------------------------------------------------------
 (* ------------------------------ invariants ------------------------------ *)
 TypeOK == /\ phase \in {"build", "sink", "absorb", "split", "done"}
-          /\ n \in 0..MaxN /\ Len(ifm) = n /\ Len(plc) = n /\ Len(extra) = n
+          /\ n \in 0..MaxN /\ Len(ifm) = n /\ Len(plc) = n /\ Len(extra) = n /\ Len(nout) = n /\ Len(second) = n
+          /\ \A i \in 1..n : nout[i] \in 1..2 /\ second[i] \subseteq (ifm[i] \cup extra[i])
           /\ Range(list) = 0..n /\ Len(list) = n + 1
 
 TopoOrder == TopoOrderOf(list, prodF)                     \* at every step
